@@ -897,8 +897,47 @@ func (pe *provEnv) enclosingConds(root ast.Node, node ast.Node) []string {
 	chain := enclosing(root, node)
 	chain = append(chain, node)
 	for i, n := range chain {
+		if i+1 >= len(chain) {
+			continue
+		}
+		// switch statements: a case clause is governed by its own condition and by the negation of
+		// the cases before it (tagless), or by tag == value (tagged; several values: a disjunction)
+		if sw, ok := n.(*ast.SwitchStmt); ok && i+2 < len(chain) {
+			if cc, ok := chain[i+2].(*ast.CaseClause); ok {
+				for _, st := range sw.Body.List {
+					other := st.(*ast.CaseClause)
+					if other == cc {
+						break
+					}
+					for _, e := range other.List {
+						if sw.Tag == nil {
+							out = append(out, pe.condAtoms(e, true)...)
+						} else {
+							out = append(out, pe.condAtoms(&ast.BinaryExpr{X: sw.Tag, Op: token.EQL, Y: e}, true)...)
+						}
+					}
+				}
+				switch {
+				case len(cc.List) == 1 && sw.Tag == nil:
+					out = append(out, pe.condAtoms(cc.List[0], false)...)
+				case len(cc.List) == 1:
+					out = append(out, pe.condAtoms(&ast.BinaryExpr{X: sw.Tag, Op: token.EQL, Y: cc.List[0]}, false)...)
+				case len(cc.List) > 1:
+					var alts []string
+					for _, e := range cc.List {
+						if sw.Tag == nil {
+							alts = append(alts, strings.Join(pe.condAtoms(e, false), " && "))
+						} else {
+							alts = append(alts, strings.Join(pe.condAtoms(&ast.BinaryExpr{X: sw.Tag, Op: token.EQL, Y: e}, false), " && "))
+						}
+					}
+					out = append(out, "("+strings.Join(alts, " || ")+")")
+				}
+			}
+			continue
+		}
 		ifs, ok := n.(*ast.IfStmt)
-		if !ok || i+1 >= len(chain) {
+		if !ok {
 			continue
 		}
 		next := chain[i+1]
